@@ -25,7 +25,7 @@ POINTS = ["fe.status.read", "fe.status.write", "mutex.lock.read", "mutex.lock.ca
           "wake1.deq", "mutex.clearbit", "wake1.push", "wakeany.deq@empty", "wakeany.deq@nonempty", "wakeany.push",
           "mutex.unlock.read@cb", "mutex.clearbit@cb|mutex.unlock.cas1@cb"]
 SITUATIONS = ["waiter_first", "rewait", "two_callbacks_in_flight", "woken_before_release_done", "plain_lock_blocked",
-              "remark_same_status_wakes", "wrong_kind_waiters_both_asleep"]
+              "remark_same_status_wakes", "wrong_kind_waiters_both_asleep", "status_read_under_lock", "mixed_thread"]
 
 
 # --------------------------------------------------------------------------------------------------
@@ -37,7 +37,16 @@ def split(n, k):
     return [base + (1 if i < rem else 0) for i in range(k)]
 
 
-def gen_case(rng, P=None, C=None, k=None, lockers=None, workers=None, pswitch=None, consumers_first=None):
+def _plain(rng):
+    """a plain lock / unlock section of the felock that looks at the status under the lock"""
+    return ["felock %s" % FE] + (["festatus %s" % FE] if rng.chance(2, 3) else []) + ["feunlock %s" % FE]
+
+
+def gen_case(rng, P=None, C=None, k=None, lockers=None, workers=None, pswitch=None, consumers_first=None, mix=None):
+    """mix: producers / consumers also run plain lock..unlock sections between their blocks (one thread mixes
+    myth_felock_lock/unlock with wait_and_lock/mark_and_signal - every wait_and_lock is still closed by a
+    mark_and_signal and every lock by an unlock) and everybody calls myth_felock_status under the lock"""
+    mix = rng.chance(1, 2) if mix is None else mix
     P = P or rng.rng(1, 3)
     C = C or rng.rng(1, 3)
     k = k or rng.rng(1, 3)
@@ -54,7 +63,10 @@ def gen_case(rng, P=None, C=None, k=None, lockers=None, workers=None, pswitch=No
         for j in range(q):
             v = 100 * (i + 1) + j
             items.append(v)
-            ops += ["fewl %s 0" % FE, "set slot %d" % v, "add produced 1", "fems %s 1" % FE]
+            if mix and rng.chance(1, 2):
+                ops += _plain(rng)
+            ops += ["fewl %s 0" % FE] + (["festatus %s" % FE] if mix and rng.chance(1, 2) else []) + \
+                   ["set slot %d" % v, "add produced 1", "fems %s 1" % FE]
             if rng.chance(1, 5):
                 ops.append("yield")
         threads[tag], roles[tag] = ops, "producer"
@@ -62,7 +74,10 @@ def gen_case(rng, P=None, C=None, k=None, lockers=None, workers=None, pswitch=No
     for q in cq:
         ops = []
         for j in range(q):
-            ops += ["fewl %s 1" % FE, "get slot", "set slot -1", "add consumed 1", "fems %s 0" % FE]
+            ops += ["fewl %s 1" % FE, "get slot", "set slot -1", "add consumed 1"] + \
+                   (["festatus %s" % FE] if mix and rng.chance(1, 2) else []) + ["fems %s 0" % FE]
+            if mix and rng.chance(1, 2):
+                ops += _plain(rng)
             if rng.chance(1, 5):
                 ops.append("yield")
         threads[tag], roles[tag] = ops, "consumer"
@@ -70,7 +85,7 @@ def gen_case(rng, P=None, C=None, k=None, lockers=None, workers=None, pswitch=No
     for _ in range(lockers):
         ops = []
         for j in range(rng.rng(1, 3)):
-            ops += ["felock %s" % FE, "feunlock %s" % FE]
+            ops += _plain(rng) if mix else ["felock %s" % FE, "feunlock %s" % FE]
             if rng.chance(1, 3):
                 ops.append("yield")
         threads[tag], roles[tag] = ops, "locker"
@@ -89,7 +104,22 @@ def gen_case(rng, P=None, C=None, k=None, lockers=None, workers=None, pswitch=No
     text = trace.case_text(workers, seed, objs, threads, pswitch=pswitch)
     return {"text": text, "P": P, "C": C, "items": sorted(items), "total": total, "lockers": lockers,
             "workers": workers, "pswitch": pswitch, "roles": {str(t): r for t, r in roles.items()},
-            "consumers_first": bool(consumers_first)}
+            "consumers_first": bool(consumers_first), "mix": bool(mix)}
+
+
+def gen_hold(rng):
+    """targeted preemption (lib_interp `hold <point> <moves> <percent>`): a participant arriving at wake1.push is
+    parked until many real moves of the others have happened.  Inside a felock the only window in which a waiter
+    can be signalled while its cond-wait callback is still running is the tail of that callback's unlock AFTER
+    the lock bit was cleared (the signaller must hold the lock), i.e. between mutex.clearbit and wake1.push of the
+    callback - reached when somebody sleeps on the mutex at that moment (plain lockers).  Holding the callback
+    there lets a producer acquire, mark and push the waiter (woken_before_release_done), and the waiter run, find
+    the lock taken and block again: a second callback of the same thread while the first is still in flight."""
+    c = gen_case(rng, P=rng.rng(1, 2), C=rng.rng(2, 3), k=2, lockers=2, workers=rng.rng(2, 4),
+                 pswitch=rng.choice([35, 60]), consumers_first=True)
+    c["text"] += "hold wake1.push %d 100\n" % rng.choice([80, 120, 200])
+    c["family"] = "hold"
+    return c
 
 
 def gen_baton(rng, k=None, workers=None, pswitch=None, status=None):
@@ -176,6 +206,8 @@ def analyse(case, r):
     gets = {}
     roles = case.get("roles", {})
     both_seen = False
+    cur_status = 0        # the status word as the POINT snapshots and the status writes show it
+    sections = {}         # thread -> kinds of sections it ran ('fe', 'plain')
     for idx, e in enumerate(r["events"]):
         T = e.actor
         if e.kind == "E" and e.words and e.words[0] == "cb.enter":
@@ -207,6 +239,10 @@ def analyse(case, r):
             if obj != FE:
                 continue
             s = _snap(e)
+            if "status" in s:
+                cur_status = s["status"]
+            if pid == "fe.status.write" and e.ctx != "c":
+                cur_status = int(val)
             if not both_seen and s.get("c0q") and s.get("c1q"):
                 both_seen = True
                 st["wrong_kind_waiters_both_asleep"] += 1
@@ -272,6 +308,18 @@ def analyse(case, r):
                 if holder is not None:
                     return ("%s of t%d returned while t%d holds the lock" % (op[0], T, holder["thread"]), st)
                 holder = {"thread": T, "status": None, "written": False}
+                sections.setdefault(T, set()).add("fe" if op[0] == "fewl" else "plain")
+            if op[0] == "festatus" and op[1] == FE:
+                # myth_felock_status under the lock: the status word itself (no POINT of its own): it must be what
+                # the last snapshot / status write shows (the model's status word, compared at every POINT by the
+                # replay) and, inside a section entered by wait_and_lock(s) and not yet marked, s
+                if holder is None or holder["thread"] != T:
+                    return ("t%d reads the status without holding the lock (harness error)" % T, st)
+                st["status_read_under_lock"] += 1
+                if ret != cur_status:
+                    return ("myth_felock_status of t%d returned %s under the lock, the status word is %d" % (T, ret, cur_status), st)
+                if holder["status"] is not None and not holder["written"] and ret != holder["status"]:
+                    return ("myth_felock_status of t%d returned %s inside a section entered with status %d" % (T, ret, holder["status"]), st)
             if op[0] == "fewl" and op[1] == FE:
                 st["fewl_returns"] += 1
                 want = int(op[2])
@@ -317,6 +365,7 @@ def analyse(case, r):
                 slot_full = None
             elif op[0] == "get" and T == 0:
                 gets[op[1]] = ret
+    st["mixed_thread"] += sum(1 for k in sections.values() if len(k) == 2)
     if sorted(produced) != sorted(case["items"]):
         return ("produced items %s differ from the program's %s" % (sorted(produced), case["items"]), st)
     if case.get("family", "mailbox") == "mailbox" and sorted(consumed) != sorted(produced):
@@ -422,8 +471,146 @@ def reseed(ctx, c):
     return dict(c, text=t)
 
 
+# --------------------------------------------------------------------------------------------------
+# composition with the scheduler-level machine, felock instance (the attached tools/props/compose.py replays
+# mutex / cond programs only: its projection and ocaml/driver_Compose.ml refuse felock groups)
+# --------------------------------------------------------------------------------------------------
+
+_FE_OPS = '    | ["fewl"; s] -> FeWL (zs s) | ["fems"; s] -> FeMS (zs s)\n'
+_FE_OBS = """    | "F" :: fs :: stt :: k :: rest ->
+        let (q, rest) = getq (int_of_string k) rest in
+        let (c0, rest) = (match rest with k0 :: r -> getq (int_of_string k0) r | [] -> failwith "short F") in
+        let (c1, _) = (match rest with k1 :: r -> getq (int_of_string k1) r | [] -> failwith "short F") in
+        let m = Printf.sprintf "status=%s state=%s q=%s c0=%s c1=%s" (sz (festat s)) (sz (mword s)) (qstr (mq s)) (qstr (nthq s 0)) (qstr (nthq s 1)) in
+        let i = Printf.sprintf "status=%s state=%s q=%s c0=%s c1=%s" fs stt q c0 c1 in
+        if i = m then None else Some ("felock words differ: impl " ^ i ^ " model " ^ m)
+"""
+_A_OPS = '    | l -> failwith ("bad op " ^ Stdlib.String.concat " " l) in\n'
+_A_OBS = '    | "-" :: _ | [] -> None\n'
+
+
+def build_compose_driver(ctx):
+    """the product driver (ocaml/driver_Compose.ml, owned by the composition) with the two felock operations and
+    the felock observation added to its Sync instance - patched into a private copy at build time; no patch if
+    the driver already knows them"""
+    from props import compose
+    src = open(os.path.join(vlib.VERIF, "ocaml", "driver_Compose.ml")).read()
+    if '"fewl"' not in src:
+        if src.count(_A_OPS) != 1 or src.count(_A_OBS) != 1:
+            raise vlib.BuildError("ocaml/driver_Compose.ml changed: cannot add the felock operations to its Sync instance "
+                                  "(anchors not found); see notes/C09.md for the 2 insertions")
+        src = src.replace(_A_OPS, _FE_OPS + _A_OPS).replace(_A_OBS, _FE_OBS + _A_OBS)
+    mine = os.path.join(ctx.dir, "driver_Compose_felock.ml")
+    if not os.path.exists(mine) or open(mine).read() != src:
+        open(mine, "w").write(src)
+    return vlib.build_driver("C09compose", "Extract_Compose.v", os.path.relpath(mine, os.path.join(vlib.VERIF, "ocaml")),
+                             compose.VFILES)
+
+
+def felock_block(case_text, r):
+    """Sync instance of the product for ONE felock group (status + mutex word + 3 queues = one SyncModel state)"""
+    from props import compose
+    groups, nt = trace.sync_groups(case_text)
+    groups = [g for g in groups if g["felock"]]
+    if len(groups) != 1:
+        raise ValueError("exactly one felock expected")
+    g = groups[0]
+    nw, _ = compose._nw_nt(case_text)
+    slines, ssrc = trace.sync_block(g, nt, r["events"])
+    return compose.merge(case_text, r, slines, ssrc, "begin sync %d %d 2" % (nw, nt), compose.SYNC_PUSH, {g["felock"]})
+
+
+def oracle_sleepers_parked(trace_text):
+    """independent statement of 'a blocked thread frees its worker' on the library: a thread listed in one of the
+    felock's three sleep queues in the snapshot of a POINT line is the current thread of no worker and in no run
+    queue (machine snapshot written for the same line)"""
+    lines = trace_text.split("\n")
+    for n, line in enumerate(lines):
+        if line[:1] != "P" or n + 1 >= len(lines) or not lines[n + 1].startswith("M "):
+            continue
+        head, _, snap = line.partition(" | ")
+        w = head.split()
+        if len(w) <= 5 or w[5] != FE:
+            continue
+        mem = set()
+        for _, body in _QS.findall(snap):
+            mem |= set(x.strip() for x in body.split(",") if x.strip().startswith("t"))
+        mm = re.match(r"M cur=\[(.*?)\] dq=\[(.*)\]$", lines[n + 1])
+        if not mm:
+            continue
+        cur = set(c for c in mm.group(1).split(",") if c.startswith("t"))
+        qs = set(t for q in re.findall(r"\[([^\[\]]*)\]", mm.group(2)) for t in q.split())
+        bad = mem & (cur | qs)
+        if bad:
+            return "thread(s) %s sleep on %s and are at the same time current / in a run queue: %s | %s" % (
+                sorted(bad), FE, line[:120], lines[n + 1][:120])
+    return None
+
+
+def compose_felock(ctx, exe, n):
+    """mailbox / baton / hold programs under `msnap 1`: both projections of one trace merged and replayed through
+    the extracted product SyncModel x machine (coq/Compose): a felock step is accepted only on the worker the
+    machine component says runs that thread / callback; blocking steps carry the pop + context save, pushes the
+    run-queue insertion; the machine component must equal the library's cur / run queues at every line"""
+    from props import compose
+    import machine_common as mc
+    drv = build_compose_driver(ctx)
+    cases = []
+    for i in range(n):
+        c = gen_hold(ctx.rng) if i % 4 == 3 else (gen_baton(ctx.rng) if i % 4 == 2 else gen_case(ctx.rng))
+        c = dict(c, text=compose._msnap(c["text"]))
+        cases.append(c)
+    wd = os.path.join(ctx.dir, "compose_runs")
+    tot = {"runs": 0, "protocol_steps": 0, "free_moves": 0, "snapshots": 0, "blocking": 0, "cb_end": 0, "sync_push": 0}
+    fails, ofails, by_workers = [], [], {}
+    for i, c in enumerate(cases):
+        r = trace.run_case(exe, c["text"], wd, "f%04d" % i, timeout=60)
+        r["model"], r["fail_context"], r["stderr"] = [], [], r["out"][-300:]
+        msg = analyse(c, r)[0] or oracle_sleepers_parked(r["trace_text"]) or mc.oracle_single_place(r["trace_text"])
+        if msg:
+            ofails.append((c, r, msg))
+            continue
+        try:
+            lines, stt = felock_block(c["text"], r)
+        except Exception as ex:              # noqa: projection of a damaged trace
+            fails.append((c, "FAIL 0 projection failed: %s" % ex, []))
+            continue
+        res = compose.validate(drv, lines)
+        if res.startswith("ok"):
+            w = res.split()
+            tot["runs"] += 1
+            tot["protocol_steps"] += int(w[1]); tot["free_moves"] += int(w[2]); tot["snapshots"] += int(w[3])
+            for k in ("blocking", "cb_end", "sync_push"):
+                tot[k] += stt[k]
+            by_workers[c["workers"]] = by_workers.get(c["workers"], 0) + 1
+        else:
+            k = int(res.split()[1])
+            fails.append((c, res, lines[max(0, k - 10):k + 1]))
+    summ = dict(tot, cases=len(cases), disagreements=len(fails), oracle_failures=len(ofails),
+                runs_by_workers={str(k): v for k, v in sorted(by_workers.items())})
+    ctx.cov.setdefault("correspondence", {})["compose_felock"] = summ
+    if ofails:
+        c, r, msg = ofails[0]
+        ctx.violation("compose-oracle", msg, {"case": c, "observed": {"verdict": r["verdict"], "trace": r["trace_path"]},
+                                              "expected": "property C09; sleepers of the felock occupy no worker / run queue",
+                                              "level": "library", "compose": True}, found=True)
+    elif fails:
+        c, res, tail = fails[0]
+        ctx.violation("compose-correspondence",
+                      "product (felock instance of SyncModel x machine) and library disagree on %d of %d runs; first: %s" % (
+                          len(fails), len(cases), res[:300]),
+                      {"theorem_or_correspondence": "correspondence coq/Compose (Sync instance, felock group) <-> src/myth_sync_func.h "
+                                                    "felock routines + block/wake helpers + scheduler",
+                       "case": c, "compose": True, "observed": res, "model_input_tail": tail}, found=False)
+    elif not (tot["blocking"] and tot["sync_push"] and tot["cb_end"]):
+        ctx.violation("coverage", "felock composition runs exercised no blocking step / push / callback end",
+                      {"theorem_or_correspondence": "coverage of the product tie for the felock", "histogram": tot}, found=False)
+    return summ
+
+
 NEED = [p for p in POINTS] + ["waiter_first", "rewait", "plain_lock_blocked", "fewl_returns", "fems_calls",
-                                "remark_same_status_wakes", "wrong_kind_waiters_both_asleep"]
+                                "remark_same_status_wakes", "wrong_kind_waiters_both_asleep", "status_read_under_lock",
+                                "mixed_thread", "two_callbacks_in_flight", "woken_before_release_done"]
 
 
 def run(ctx):
@@ -443,7 +630,16 @@ def run(ctx):
     # >= 2 producers with >= 2 consumers, consumers first: waiters of both kinds asleep at the same time
     cases += [gen_case(ctx.rng, P=ctx.rng.rng(2, 3), C=ctx.rng.rng(2, 3), k=2, lockers=0, workers=ctx.rng.rng(2, 4),
                        pswitch=ctx.rng.choice([60, 85]), consumers_first=True) for _ in range(n // 10)]
+    cases += [gen_hold(ctx.rng) for _ in range(n // 4)]
     results, fails, mism, stats = judge(ctx, cases, exe, drv)
+    for _ in range(3):    # the two overlap situations are probabilistic per run (~1/4 each): top up rather than be flaky
+        if fails or mism or (stats.get("two_callbacks_in_flight") and stats.get("woken_before_release_done")):
+            break
+        more = [gen_hold(ctx.rng) for _ in range(n // 4)]
+        r2, f2, m2, s2 = judge(ctx, more, exe, drv)
+        cases, results, fails, mism = cases + more, results + r2, fails + f2, mism + m2
+        for k_, v_ in s2.items():
+            stats[k_] = stats.get(k_, 0) + v_
     missing = [p for p in NEED if not stats.get(p)]
     dist = {}
     for c in cases:
@@ -466,6 +662,10 @@ def run(ctx):
         "extraction: ExtrOcamlBasic only; ocaml/driver_Sync.ml, ocaml/zio.ml (shared Sync driver)",
         "harness/lib_interp.c (schedule controller: one participant runs at a time, decisions at MYTH_VERIF_POINTs; "
         "occupancy and status witness on the R lines of fewl / felock)",
+        "felock instance of the product tie: tools/props/compose.py merge + ocaml/driver_Compose.ml with the felock operations / "
+        "observation added to its Sync instance in a private copy (tools/props/c09.py build_compose_driver), lib_interp machine snapshots",
+        "harness/lib_interp.c op `festatus F` (myth_felock_status under the lock; no POINT, not a model step: compared with the "
+        "status word of the snapshots, which the replay compares with the model's)",
         "tools/trace.py projection of traces onto the Sync model (a felock is one object group: status, mutex word, 3 queues); "
         "MYTH_VERIF hooks in src/myth_sync_func.h (guarded by -DMYTH_VERIF)",
         "modelled, not verified: sleep-queue enqueue/dequeue as one step each (they run under the queue's spinlock), the run "
@@ -509,6 +709,8 @@ def run(ctx):
                 ctx.violation("coverage", "POINT ids / situations never reached in this run: " + ", ".join(missing),
                               {"theorem_or_correspondence": "coverage of the felock routines by the correspondence run",
                                "histogram": stats}, found=False)
+    if not (fails or mism or missing):
+        compose_felock(ctx, exe, 32 if not ctx.thorough else 320)
     if broken:
         ctx.violation("proof", "theorem(s) no longer check: " + ", ".join(broken),
                       {"theorem_or_correspondence": ", ".join(broken), "log": getattr(ctx, "proof_log", log[-3000:])}, found=False)
